@@ -7,6 +7,8 @@ from vf import gen, sel as S
 
 ID = "C07"
 TITLE = "CUR and PCov-CUR select by leverage score on the orthogonalised residual"
+TECHNIQUE = 'Hypothesis PBT against dense SVD/eigh leverage scores on an independent projection residual; scores used are recorded by a wrapper; gap-aware'
+LEVEL = 'Generated-input exploration: each selection maximises the independently computed importance score as of the last refresh, recorded scores equal the oracle, exposed residual equals the projection and is orthogonal to selected items, duality and mixing=1 relations. No absence claim: strength = the counted distinct non-trivial cases in the evidence.'
 BUDGET = {"quick": 1200, "thorough": 12000}
 RULE = ("Cases: CUR / PCovCUR x {feature, sample}; X kinds generic, eighths (near ties), lowrank, dup with a global scale in "
         "{.1,1,10}, 4..13 x 4..10 (thorough: to 40 x 24); numerical rank r is measured and the number of selections is drawn in "
